@@ -250,11 +250,12 @@ CLAIMED["C09"] = dict(
          "the callee's contract (an uninterpreted acceptance relation over constraint, attribute and variable context, contexts threaded in order): "
          "equality / set membership / class test; variables: first occurrence binds after the inner constraint accepts, later occurrences must be "
          "equal (object truthiness is NOT assumed to mean `is not None`); parametrized: class, arity, parameter-wise in the threaded context; "
-         "intersection: all conjuncts; union: some alternative - the dispatch-table lemma under the AnyOf object invariant and bases-soundness. "
+         "intersection: all conjuncts; union: some alternative - the dispatch-table lemma under the AnyOf object invariant (itself the discharged postcondition of AnyOf.__init__, which is "
+         "verified to establish it or raise) and bases-soundness. "
          "ConstraintContext.get_variable/set_attr_variable are inlined. EqAttrConstraint/VarConstraint.infer return an accepted attribute; "
          "get_bases soundness for EqAttrConstraint, BaseAttr, ParamAttrConstraint. Bounded stand-in for the remaining clauses: generated constraint "
          "trees vs a reference evaluator, union simplification (AnyOf.get, |, &), inference on satisfiable constraints, type hints vs isa.",
-    note="Bounded only: AnyOf.__init__ (establishes the invariant assumed by AnyOf.verify), AnyOf.get / relax_constraint (simplification never "
+    note="Bounded only: AnyOf.get / relax_constraint (simplification never "
          "changes the accepted set), irdl_to_attr_constraint vs isa, infer of BaseAttr/ParamAttrConstraint/AllOf, AttrSetConstraint.get_bases. "
          "Not covered: IntConstraint / RangeConstraint families. Attribute == is value equality (C08). pyvc + z3 trusted.",
     design="§4 C09, §9",
